@@ -1,0 +1,7 @@
+//go:build !verif
+
+package pebbledb
+
+import "github.com/cockroachdb/pebble"
+
+func verifPebbleOptions(*pebble.Options) {}
